@@ -159,14 +159,15 @@ package xpath
 //@   ensures[nonnil@C15] result != nil
 //@   requires[nonnil-args@C15] arg != nil
 //@ func countFunc$1
-//@   props C15 C04 C05 C13
-//@   theory stream for C04 C05 C14 C13
+//@   props C15 C04 C05 C13 C08
+//@   theory stream for C04 C05 C14 C13 C08
 //@   ensures[pure-arg@C04,C05] stateless(arg) || k(arg) == old(k(arg)) && epoch(arg) == old(epoch(arg))
 //@   conforms functionQuery.Func
 //@   captures arg != nil
 //@   loop 0 invariant[pure@C04,C05] (stateless(arg) || k(arg) == old(k(arg)) && epoch(arg) == old(epoch(arg)))
 //@   uses one-document
 //@   loop * invariant[cursor@C13] cur(t) == old(cur(t)) && pos(cur(t)) == old(pos(cur(t)))
+//@   ensures[count@C08] result == box(float(count))
 
 //@ func sumFunc
 //@   props C15
@@ -174,8 +175,8 @@ package xpath
 //@   ensures[nonnil@C15] result != nil
 //@   requires[nonnil-args@C15] arg != nil
 //@ func sumFunc$1
-//@   props C15 C04 C05 C13
-//@   theory stream for C04 C05 C14 C13
+//@   props C15 C04 C05 C13 C08
+//@   theory stream for C04 C05 C14 C13 C08
 //@   ensures[pure-arg@C04,C05] stateless(arg) || k(arg) == old(k(arg)) && epoch(arg) == old(epoch(arg))
 //@   panics "sum() function argument type must be a node-set or number"
 //@   conforms functionQuery.Func
@@ -183,6 +184,12 @@ package xpath
 //@   loop 0 invariant[pure@C04,C05] (stateless(arg) || k(arg) == old(k(arg)) && epoch(arg) == old(epoch(arg)))
 //@   uses one-document
 //@   loop * invariant[cursor@C13] cur(t) == old(cur(t)) && pos(cur(t)) == old(pos(cur(t)))
+//@   ensures[sum@C08] result == box(sum)
+//@   loop 0 apply ssumZero(ref(typ), epoch(typ))
+//@   loop 0 apply ssumStep(ref(typ), epoch(typ), k(typ) - 1)
+//@   loop 0 apply ssumStep(ref(typ), epoch(typ), k(typ) - 2)
+//@   loop 0 invariant[pending@C08] node != nil ==> k(typ) >= 1 && pos(node) == spos(ref(typ), epoch(typ), k(typ) - 1)
+//@   loop 0 invariant[partial-sum@C08] 0 <= k(typ) && sameF(sum, ssum(ref(typ), epoch(typ), ite(node != nil, k(typ) - 1, k(typ))))
 
 //@ func ceilingFunc
 //@   props C15
@@ -190,13 +197,14 @@ package xpath
 //@   ensures[nonnil@C15] result != nil
 //@   requires[nonnil-args@C15] arg != nil
 //@ func ceilingFunc$1
-//@   props C15 C04 C05 C13
-//@   theory stream for C04 C05 C14 C13
+//@   props C15 C04 C05 C13 C08
+//@   theory stream for C04 C05 C14 C13 C08
 //@   ensures[pure-arg@C04,C05] stateless(arg) || k(arg) == old(k(arg)) && epoch(arg) == old(epoch(arg))
 //@   conforms functionQuery.Func
 //@   captures arg != nil
 //@   uses one-document
 //@   loop * invariant[cursor@C13] cur(t) == old(cur(t)) && pos(cur(t)) == old(pos(cur(t)))
+//@   ensures[ceiling@C08] result == box(ceil(val))
 
 //@ func floorFunc
 //@   props C15
@@ -204,13 +212,14 @@ package xpath
 //@   ensures[nonnil@C15] result != nil
 //@   requires[nonnil-args@C15] arg != nil
 //@ func floorFunc$1
-//@   props C15 C04 C05 C13
-//@   theory stream for C04 C05 C14 C13
+//@   props C15 C04 C05 C13 C08
+//@   theory stream for C04 C05 C14 C13 C08
 //@   ensures[pure-arg@C04,C05] stateless(arg) || k(arg) == old(k(arg)) && epoch(arg) == old(epoch(arg))
 //@   conforms functionQuery.Func
 //@   captures arg != nil
 //@   uses one-document
 //@   loop * invariant[cursor@C13] cur(t) == old(cur(t)) && pos(cur(t)) == old(pos(cur(t)))
+//@   ensures[floor@C08] result == box(floor(val))
 
 //@ func roundFunc
 //@   props C15
@@ -290,13 +299,14 @@ package xpath
 //@   ensures[nonnil@C15] result != nil
 //@   requires[nonnil-args@C15] arg1 != nil
 //@ func numberFunc$1
-//@   props C15 C04 C05 C13
-//@   theory stream for C04 C05 C14 C13
+//@   props C15 C04 C05 C13 C08
+//@   theory stream for C04 C05 C14 C13 C08
 //@   ensures[pure-arg1@C04,C05] stateless(arg1) || k(arg1) == old(k(arg1)) && epoch(arg1) == old(epoch(arg1))
 //@   conforms functionQuery.Func
 //@   captures arg1 != nil
 //@   uses one-document
 //@   loop * invariant[cursor@C13] cur(t) == old(cur(t)) && pos(cur(t)) == old(pos(cur(t)))
+//@   ensures[number@C08] result == box(numv(v, 0))
 
 //@ func stringFunc
 //@   props C15
@@ -688,24 +698,30 @@ package xpath
 //@   ensures[cursor-restored@C13] pos(cur(t)) == old(pos(cur(t)))
 //@   loop * invariant[cursor@C13] cur(t) == old(cur(t)) && pos(cur(t)) == old(pos(cur(t)))
 //@ func asString
-//@   props C15 C13
+//@   props C15 C13 C08
 //@   requires[@C15] t != nil && (v == nil || valtype(v))
 //@   receiver v
 //@   tree-frame
 //@   disjoint-operands
 //@   preserves heap(F:NodeIterator.*)
-//@   theory stream for C13
+//@   theory stream for C13 C08
 //@   uses one-document
 //@   ensures[cursor-restored@C13] pos(cur(t)) == old(pos(cur(t)))
 //@   loop * invariant[cursor@C13] cur(t) == old(cur(t)) && pos(cur(t)) == old(pos(cur(t)))
+//@   ensures[number-to-string@C08] is(v, float64) ==> result == fmtf_(as(v, float64))
 //@ func asNumber
 //@   props C15 C08 C13
 //@   requires[@C15] t != nil
 //@   receiver o
+//@   ghost k(self) = ite(is(o, query) && old(k(o)) < slen(ref(o), epoch(o)), old(k(o)) + 1, old(k(o)))
+//@   ghost epoch(self) = old(epoch(o))
+//@   ghost ctxp(self) = old(ctxp(o))
+//@   ensures[ghost-k@C08] is(o, query) ==> k(o) == ite(old(k(o)) < slen(ref(o), epoch(o)), old(k(o)) + 1, old(k(o))) && epoch(o) == old(epoch(o))
+//@   ensures[number@C08] sameF(result, numv(o, old(k(o))))
 //@   tree-frame
 //@   disjoint-operands
 //@   preserves heap(F:NodeIterator.*)
-//@   theory stream for C13
+//@   theory stream for C13 C08
 //@   uses one-document
 //@   ensures[cursor-restored@C13] pos(cur(t)) == old(pos(cur(t)))
 //@   loop * invariant[cursor@C13] cur(t) == old(cur(t)) && pos(cur(t)) == old(pos(cur(t)))
@@ -722,11 +738,8 @@ package xpath
 //@   ensures[same-kind@C04] sameKind(q, result)
 //@ func numericExpr
 //@   props C15 C08 C13
+//@   inline
 //@   requires[@C15] t != nil && cb != nil
-//@   theory stream for C13
-//@   uses one-document
-//@   ensures[cursor-restored@C13] pos(cur(t)) == old(pos(cur(t)))
-//@   loop * invariant[cursor@C13] cur(t) == old(cur(t)) && pos(cur(t)) == old(pos(cur(t)))
 //@ func getHashCode
 //@   props C15 C11 C13
 //@   requires[@C15] n != nil
@@ -1014,7 +1027,19 @@ package xpath
 //@   ensures[known-function@C17] result1 == nil ==> fnKnown(root.FuncName)
 //@   ensures[arity@C17] result1 == nil ==> len(root.Args) >= minArgs(root.FuncName)
 //@ func (*builder).processOperator
-//@   props C15 C06 C17
+//@   props C15 C06 C17 C08 C07
+//@   ensures[plus@C08] result1 == nil && root.Op == "+" ==> is(result0, *numericQuery) && fn(as(result0, *numericQuery).Do) == fnid("plusFunc")
+//@   ensures[minus@C08] result1 == nil && root.Op == "-" ==> is(result0, *numericQuery) && fn(as(result0, *numericQuery).Do) == fnid("minusFunc")
+//@   ensures[mul@C08] result1 == nil && root.Op == "*" ==> is(result0, *numericQuery) && fn(as(result0, *numericQuery).Do) == fnid("mulFunc")
+//@   ensures[div@C08] result1 == nil && root.Op == "div" ==> is(result0, *numericQuery) && fn(as(result0, *numericQuery).Do) == fnid("divFunc")
+//@   ensures[mod@C08] result1 == nil && root.Op == "mod" ==> is(result0, *numericQuery) && fn(as(result0, *numericQuery).Do) == fnid("modFunc")
+//@   ensures[eq@C07] result1 == nil && root.Op == "=" ==> is(result0, *logicalQuery) && fn(as(result0, *logicalQuery).Do) == fnid("eqFunc")
+//@   ensures[ne@C07] result1 == nil && root.Op == "!=" ==> is(result0, *logicalQuery) && fn(as(result0, *logicalQuery).Do) == fnid("neFunc")
+//@   ensures[lt@C07] result1 == nil && root.Op == "<" ==> is(result0, *logicalQuery) && fn(as(result0, *logicalQuery).Do) == fnid("ltFunc")
+//@   ensures[le@C07] result1 == nil && root.Op == "<=" ==> is(result0, *logicalQuery) && fn(as(result0, *logicalQuery).Do) == fnid("leFunc")
+//@   ensures[gt@C07] result1 == nil && root.Op == ">" ==> is(result0, *logicalQuery) && fn(as(result0, *logicalQuery).Do) == fnid("gtFunc")
+//@   ensures[ge@C07] result1 == nil && root.Op == ">=" ==> is(result0, *logicalQuery) && fn(as(result0, *logicalQuery).Do) == fnid("geFunc")
+//@   ensures[or@C07] result1 == nil && (root.Op == "or" || root.Op == "and") ==> is(result0, *booleanQuery) && as(result0, *booleanQuery).IsOr == (root.Op == "or")
 //@   requires[depth@C06] 0 <= b.parseDepth && b.parseDepth <= 1024
 //@   maypanic
 //@   decreases 1024 - b.parseDepth, 1
@@ -1351,6 +1376,13 @@ package xpath
 //@   uses one-document
 //@   theory stream
 
+// The XPath number() of a value (4.4): a number is itself, a boolean 1 or 0, a string its
+// numeric value (NaN when it is not a number), a node-set the numeric value of the string-value
+// of its first remaining node (NaN when there is none).
+// ssum(q, e, i) is defined by recursion on i; the two equations are applied where needed.
+//@ instance ssumZero(q, e) = sameF(ssum(q, e, 0), float(0))
+//@ instance ssumStep(q, e, i) = i >= 0 ==> sameF(ssum(q, e, i + 1), ite(parsefloat_ok(nav_value(spos(q, e, i))), ssum(q, e, i) + parsefloat_val(nav_value(spos(q, e, i))), ssum(q, e, i)))
+//@ define numv(o, k0) = ite(is(o, float64), as(o, float64), ite(is(o, bool), ite(as(o, bool), float(1), float(0)), ite(is(o, string), num(as(o, string)), ite(is(o, query) && k0 < slen(ref(o), epoch(o)), num(sval(o, k0)), nan()))))
 //@ define truthOf(v, e) = ite(is(v, bool), as(v, bool), ite(is(v, float64), as(v, float64) != 0 && !isNaN(as(v, float64)), ite(is(v, string), as(v, string) != "", is(v, query) && 0 < slen(ref(v), e))))
 //@ func (*booleanQuery).Evaluate
 //@   props C15 C07 C13
@@ -1971,48 +2003,63 @@ package xpath
 //@ func plusFunc
 //@   props C15 C08 C13
 //@   conforms numericQuery.Do
-//@   theory stream for C13
+//@   theory stream for C13 C08
 //@   uses one-document
+//@   assume[ownership] !(is(m, query) && is(n, query)) || ref(m) != ref(n)
+//@   ensures[add@C08] result == box(numv(m, old(k(m))) + numv(n, old(k(n))))
 //@ func plusFunc$1
 //@   props C15 C08
 //@   conforms numericExpr.cb
 //@   modifies nothing
+//@   ensures[add@C08] sameF(result, a + b)
 //@ func minusFunc
 //@   props C15 C08 C13
 //@   conforms numericQuery.Do
-//@   theory stream for C13
+//@   theory stream for C13 C08
 //@   uses one-document
+//@   assume[ownership] !(is(m, query) && is(n, query)) || ref(m) != ref(n)
+//@   ensures[sub@C08] result == box(numv(m, old(k(m))) - numv(n, old(k(n))))
 //@ func minusFunc$1
 //@   props C15 C08
 //@   conforms numericExpr.cb
 //@   modifies nothing
+//@   ensures[sub@C08] sameF(result, a - b)
 //@ func mulFunc
 //@   props C15 C08 C13
 //@   conforms numericQuery.Do
-//@   theory stream for C13
+//@   theory stream for C13 C08
 //@   uses one-document
+//@   assume[ownership] !(is(m, query) && is(n, query)) || ref(m) != ref(n)
+//@   ensures[mul@C08] result == box(numv(m, old(k(m))) * numv(n, old(k(n))))
 //@ func mulFunc$1
 //@   props C15 C08
 //@   conforms numericExpr.cb
 //@   modifies nothing
+//@   ensures[mul@C08] sameF(result, a * b)
 //@ func divFunc
 //@   props C15 C08 C13
 //@   conforms numericQuery.Do
-//@   theory stream for C13
+//@   theory stream for C13 C08
 //@   uses one-document
+//@   assume[ownership] !(is(m, query) && is(n, query)) || ref(m) != ref(n)
+//@   ensures[div@C08] result == box(numv(m, old(k(m))) / numv(n, old(k(n))))
 //@ func divFunc$1
 //@   props C15 C08
 //@   conforms numericExpr.cb
 //@   modifies nothing
+//@   ensures[div@C08] sameF(result, a / b)
 //@ func modFunc
 //@   props C15 C08 C13
 //@   conforms numericQuery.Do
-//@   theory stream for C13
+//@   theory stream for C13 C08
 //@   uses one-document
+//@   assume[ownership] !(is(m, query) && is(n, query)) || ref(m) != ref(n)
+//@   ensures[mod@C08] result == box(fmod_(numv(m, old(k(m))), numv(n, old(k(n)))))
 //@ func modFunc$1
 //@   props C15 C08
 //@   conforms numericExpr.cb
 //@   modifies nothing
+//@   ensures[mod@C08] sameF(result, fmod_(a, b))
 //@ func orFunc
 //@   props C15 C13
 //@   conforms logicalQuery.Do
